@@ -7,8 +7,8 @@ subset of the requested size (every possible draw is explored). Per generated ro
 * protocol: chosen alternative first, no alternative twice, per stratum exactly the requested number, all from that
   stratum, correction ln(k/n) of the stratum, weight n/k in the second sample;
 * combined variables equal their formula on the individual's and the sampled alternative's OWN attributes (z3);
-* complete sampling: the log likelihood built on the sample (logit; nested logit with a completely sampled second
-  sample) equals the log likelihood of the model on the full choice set, for ALL attribute and parameter values (z3,
+* complete sampling: the log likelihood built on the sample (logit; nested and cross-nested logit with a completely
+  sampled second sample) equals the log likelihood of the model on the full choice set, for ALL attribute and parameter values (z3,
   exp/log normal form).
 """
 from __future__ import annotations
@@ -86,7 +86,14 @@ def resolve(x, frame):
     return SymReal(z3.substitute(t, *subs)) if subs else SymReal(t)
 
 
-def context(sv, choice, sizes, mev_sizes, symbolic, nests=False):
+def cnl_nests(sv):
+    from biogeme.nests import OneNestForCrossNestedLogit, NestsForCrossNestedLogit
+    return NestsForCrossNestedLogit(choice_set=list(IDS), tuple_of_nests=(
+        OneNestForCrossNestedLogit(nest_param=beta('mu_0', sv), dict_of_alpha={10: 1.0, 11: 0.5}, name='n0'),
+        OneNestForCrossNestedLogit(nest_param=beta('mu_1', sv), dict_of_alpha={11: 0.5, 12: 1.0, 13: 1.0, 14: 1.0}, name='n1')))
+
+
+def context(sv, choice, sizes, mev_sizes, symbolic, nests=False, cnl=False):
     import biogeme.expressions as ex
     from biogeme.partition import Partition
     from biogeme.sampling_of_alternatives import SamplingContext, CrossVariableTuple
@@ -97,6 +104,8 @@ def context(sv, choice, sizes, mev_sizes, symbolic, nests=False):
     kw = {}
     if mev_sizes is not None:
         kw = dict(mev_partition=Partition([set(s) for s in STRATA], full_set=set(IDS)), mev_sample_sizes=list(mev_sizes))
+        if cnl:
+            kw['cnl_nests'] = cnl_nests(sv)
     return SamplingContext(the_partition=part, sample_sizes=list(sizes), individuals=ind, choice_column='CHOICE', alternatives=alts,
                            id_column='ID', biogeme_file_name='c19_generated.dat', utility_function=V, combined_variables=combined, **kw)
 
@@ -170,8 +179,8 @@ def scenario(c, decide, sizes_name, choice, model, sv, symbolic=True):
     from biogeme.sampling_of_alternatives import ChoiceSetsGeneration, GenerateModel
     eqs = []
     sizes = SIZES[sizes_name]
-    mev_sizes = (2, 3) if model == 'nested' else ((1, 2) if model == 'mev-protocol' else None)
-    ctx_ = context(sv, choice, sizes, mev_sizes, symbolic)
+    mev_sizes = (2, 3) if model in ('nested', 'cnl') else ((1, 2) if model == 'mev-protocol' else None)
+    ctx_ = context(sv, choice, sizes, mev_sizes, symbolic, cnl=(model == 'cnl'))
     gen = ChoiceSetsGeneration(ctx_)
     db = gen.sample_and_merge(recycle=False)
     row = db.data.iloc[0]
@@ -208,13 +217,13 @@ def scenario(c, decide, sizes_name, choice, model, sv, symbolic=True):
             eqs.append(('second sample: combined variable is computed from the individual and the listed alternative',
                         resolve(row[f'_MEV_age_tt_{i}'], db.data), sv('I_age') * sv(f'A_{a}_tt') + sv(f'A_{a}_cost')))
     # ---- complete sampling: likelihood on the sample = likelihood of the full model
-    if sizes_name == 'complete' and model in ('logit', 'nested'):
+    if sizes_name == 'complete' and model in ('logit', 'nested', 'cnl'):
         gm = GenerateModel(ctx_)
         mu = {0: beta('mu_0', sv), 1: beta('mu_1', sv)}
         nests = NestsForNestedLogit(choice_set=list(IDS), tuple_of_nests=(
             OneNestForNestedLogit(nest_param=mu[0], list_of_alternatives=[10, 11], name='n0'),
             OneNestForNestedLogit(nest_param=mu[1], list_of_alternatives=[12, 13], name='n1')))
-        on_sample = gm.get_logit() if model == 'logit' else gm.get_nested_logit(nests)
+        on_sample = gm.get_logit() if model == 'logit' else (gm.get_nested_logit(nests) if model == 'nested' else gm.get_cross_nested_logit())
         got = resolve(on_sample.get_value_c(database=db, prepare_ids=True)[0], db.data)
         # the full model written by hand on one row holding the attributes of all alternatives
         full = pd.DataFrame({'RID': [0.0], 'CHOICE': [float(choice)], 'age': [AGE_TAG if symbolic else sv('I_age')]})
@@ -224,7 +233,9 @@ def scenario(c, decide, sizes_name, choice, model, sv, symbolic=True):
         fdb = Database('full', full)
         Vf = {a: beta('b_tt', sv) * ex.Variable(f'tt_{a}') + beta('b_cost', sv) * ex.Variable(f'cost_{a}')
               + beta('b_at', sv) * (ex.Variable('age') * ex.Variable(f'tt_{a}') + ex.Variable(f'cost_{a}')) for a in IDS}
-        ref = models.loglogit(Vf, None, ex.Variable('CHOICE')) if model == 'logit' else models.lognested(Vf, None, nests, ex.Variable('CHOICE'))
+        ref = models.loglogit(Vf, None, ex.Variable('CHOICE')) if model == 'logit' else (
+            models.lognested(Vf, None, nests, ex.Variable('CHOICE')) if model == 'nested'
+            else models.logcnl(Vf, None, cnl_nests(sv), ex.Variable('CHOICE')))
         want = resolve(ref.get_value_c(database=fdb, prepare_ids=True)[0], full)
         eqs.append((f'complete sampling: the {model} log likelihood on the sample equals the log likelihood on the full choice set', got, want))
     return eqs
@@ -238,7 +249,11 @@ def items_for(tier):
     for choice in (11, 12):
         items.append(('complete', choice, 'nested'))
         items.append(('1-2', choice, 'mev-protocol'))
+    for choice in (11,):
+        items.append(('complete', choice, 'cnl'))
     if tier == 'thorough':
+        for choice in (10, 13):
+            items.append(('complete', choice, 'cnl'))
         for choice in (10, 14):
             items.append(('complete', choice, 'nested'))
             items.append(('2-2', choice, 'mev-protocol'))
@@ -319,7 +334,17 @@ def worker(item):
             if status_ == 'proved':
                 res.add(label, 'proved')
             elif status_ == 'unknown':
-                res.add(label, 'unknown', detail='solver unknown')
+                # neither the normal form nor z3 decided: the claim becomes a candidate that the concrete replay (all draws,
+                # default numbers, real engine) confirms or not
+                if ('u', label) not in done:
+                    case = dict(item=list(item), label=label, draws=taken, values={})
+                    done[('u', label)] = (replay_subprocess(case), case)
+                rp, case = done[('u', label)]
+                if rp.get('reproduced'):
+                    res.add(label, 'cex', key='/'.join(str(x) for x in item) + '/' + label, case=case,
+                            detail='undecided by the solver | replay: ' + str(rp.get('detail')), reproduced=True)
+                else:
+                    res.add(label, 'unknown', detail='solver unknown')
             else:
                 if label not in done:
                     asg = symx.model_to_assignment(model_) if model_ is not None else {}
@@ -392,10 +417,10 @@ def main(tier):
         PID, tier, items, worker,
         functions_encoded=['sampling_of_alternatives.SamplingOfAlternatives.sample_alternatives / sample_mev_alternatives',
                            'choice_set_generation.ChoiceSetsGeneration.process_row / define_new_variables / sample_and_merge',
-                           'generate_model.GenerateModel.get_logit / get_nested_logit', 'sampling_context.SamplingContext'],
+                           'generate_model.GenerateModel.get_logit / get_nested_logit / get_cross_nested_logit', 'sampling_context.SamplingContext'],
         bounds=dict(alternatives=IDS, strata=[sorted(s) for s in STRATA], sample_sizes=SIZES, individuals=1,
                     draws='every subset of the requested size (solver-chosen)',
-                    outside='cross-nested model on samples; more than 5 alternatives / 2 strata; statistical properties of '
+                    outside='more than 5 alternatives / 2 strata; statistical properties of '
                             'pandas.DataFrame.sample (replaced by an arbitrary subset); recycle=True (reads a csv)'),
         stubs=['cythonbiogeme -> verif.symengine', 'pandas.DataFrame.sample -> solver-chosen subset', 'DataFrame.to_csv of the '
                'generated file -> no-op'],
